@@ -19,6 +19,12 @@ func (x *Exec) valueInstr(st *State, b *ssa.BasicBlock, i int, ins ssa.Value, k 
 		if ins.Comment != "" {
 			name += ":" + ins.Comment
 		}
+		if x.NamedCells && ins.Comment != "" && ins.Heap {
+			name = ins.Comment
+			for n := 2; st.Zero[name]; n++ {
+				name = fmt.Sprintf("%s#%d", ins.Comment, n)
+			}
+		}
 		// a named local cell of a closure-verification unit keeps its plain name when asked to
 		st.Zero[name] = true
 		return SVal{K: KLoc, Loc: name, GoT: ins.Type(), Src: ins.Comment}, false
